@@ -96,6 +96,11 @@ func main() {
 '''
 
 
+WRAPPED_MAIN = MINIMAL_MAIN.replace('import (\n\t"fmt"\n', 'import (\n\t"crypto"\n\t"crypto/sha256"\n\t"fmt"\n\t"hash"\n').replace(
+    "func main() {", "// another package of the program may register its own (correct) SHA-256 under the identifier: only hash.Hash is promised\n"
+    "func init() {\n\tcrypto.RegisterHash(crypto.SHA256, func() hash.Hash { return struct{ hash.Hash }{sha256.New()} })\n}\n\nfunc main() {")
+
+
 def special_link(ctx):
     """Build and run a plain main that imports only the package (no test binary, no harness)."""
     d = os.path.join(ctx.scratch, "minimal")
@@ -135,6 +140,22 @@ def special_link(ctx):
     if r.returncode != 0:
         ctx.violations.append({"kind": "special", "op": "LINK minimal-main", "detail": {"exit": r.returncode, "output": r.stdout[-600:], "program": MINIMAL_MAIN}})
         return
+    # a program in which another package registered a wrapper of SHA-256 (same digests, only the hash.Hash interface)
+    dw = os.path.join(ctx.scratch, "minimal_wrapped")
+    os.makedirs(dw, exist_ok=True)
+    open(os.path.join(dw, "main.go"), "w").write(WRAPPED_MAIN)
+    shutil.copy(os.path.join(d, "go.mod"), os.path.join(dw, "go.mod"))
+    shutil.copy(os.path.join(d, "go.sum"), os.path.join(dw, "go.sum"))
+    rw = sh(["go", "build", "-o", "minimal_wrapped", "."], cwd=dw, env=GOENV)
+    if rw.returncode == 0:
+        rr = sh([os.path.join(dw, "minimal_wrapped")])
+        ctx.coverage["evaluations"] = ctx.coverage.get("evaluations", 0) + 6
+        ctx.samples.append("main with a wrapped SHA-256 registered by the program: exit %d" % rr.returncode)
+        if rr.returncode != 0 or rr.stdout != r.stdout:
+            ctx.violations.append({"kind": "special", "op": "LINK program-registered-sha256-wrapper",
+                                   "detail": {"exit": rr.returncode, "output": rr.stdout[-600:], "expected": r.stdout[-300:], "program": WRAPPED_MAIN}})
+    else:
+        ctx.violations.append({"kind": "correspondence-broken", "detail": "wrapped-registry main does not build: " + rw.stdout[-600:]})
     # expected values from the executable specification (Lean driver)
     drv = os.path.join(LEAN, ".lake", "build", "bin", "secpdriver")
     msg, dst = "616263", "QUUX-V01-CS02-with-secp256k1_XMD:SHA-256_SSWU_RO_".encode().hex()
@@ -209,7 +230,7 @@ RULE = ("operation lines generated from VERIF_SEED by the harness (mostly-valid 
 
 PROPS = {
     "C01": P("proof", [("mul", 24, 6000)], ["PT.mul"], rule=RULE, model_ignore=["c"]),
-    "C02": P("proof", [("grouplaw", 1500, 200000)], ["PT.add", "PT.addnil", "PT.addself", "PT.dbl", "PT.neg", "PT.sub", "PT.subnil", "PT.subself"], rule=RULE, model_ignore=["c"]),
+    "C02": P("proof", [("grouplaw", 1500, 200000)], ["PT.add", "PT.addnil", "PT.addself", "PT.dbl", "PT.neg", "PT.sub", "PT.subnil", "PT.subself", "PT.viaid"], rule=RULE, model_ignore=["c", "c1", "c2", "c3", "c4"]),
     "C03": P("proof", [("decode", 1200, 150000)], ["DEC.*"], rule=RULE),
     "C04": P("proof", [("enc", 600, 80000), ("roundtrip", 300, 40000)], ["PT.enc", "G.base", "G.consts", "G.order", "DEC.*"], rule=RULE),
     "C05": P("proof", [("eq", 1500, 200000)], ["PT.eq", "PT.eqself", "PT.isid"], rule=RULE),
